@@ -177,6 +177,80 @@ def gen_design(g, composite=True):
             "block": {"k": "nest", "outer": lo["block"], "inner": li["block"], "cs": [], "align": None}}
 
 
+# ------------------------------------------------------------------- corpus
+
+def _sf(fid, names, weights=None):
+    return {"id": fid, "name": "f%d" % fid, "window": None,
+            "levels": [{"name": n, "w": (weights[i] if weights else 1)} for i, n in enumerate(names)]}
+
+
+def _transition(fid, dep, nlev_dep):
+    # level 0: "same as previous trial", level 1: "different" (None in the window -> different)
+    size = (nlev_dep + 1) ** 2
+    same = [0] * size
+    for i in range(nlev_dep):
+        same[(i + 1) * (nlev_dep + 1) + (i + 1)] = 1
+    return {"id": fid, "name": "f%d" % fid,
+            "window": {"deps": [dep], "width": 2, "stride": 1, "start": None, "kind": "transition"},
+            "levels": [{"name": "same", "w": 1, "table": same}, {"name": "diff", "w": 1, "table": [1 - x for x in same]}]}
+
+
+def corpus_designs(big):
+    """Deterministic boundary families, run before the random designs (sizes where past defects lived)."""
+    out = []
+    c, t = _sf(0, ["r", "g"]), _sf(1, ["x", "y"])
+    ns = range(2, 8) if big else (4, 5, 6)
+    ks = range(1, 6) if big else (2, 3, 4)
+    for kind in RUN_KINDS + ["ExactlyK"]:
+        for n in ns:
+            for k in ks:
+                for fid in (1, 0):          # uncrossed and crossed factor
+                    if fid == 0 and not big and (n + k) % 2:
+                        continue
+                    out.append({"factors": [c, t], "block": {"k": "cross", "design": [0, 1], "crossing": [0], "rcc": True,
+                                "cs": [{"k": "MinimumTrials", "n": n}, {"k": kind, "n": k, "f": fid, "l": 0}]}})
+    # weighted crossed levels with a partial last chunk, in CrossBlock and under Repeat
+    for names, ws in ((["a", "b"], [2, 1]), (["a", "b", "c"], [2, 1, 1]), (["a", "b"], [3, 1])):
+        f = _sf(0, names, ws)
+        size = sum(ws)
+        for n in range(size, 2 * size + 2):
+            out.append({"factors": [f], "block": {"k": "cross", "design": [0], "crossing": [0], "rcc": True,
+                        "cs": [{"k": "MinimumTrials", "n": n}]}})
+            out.append({"factors": [f], "block": {"k": "repeat", "cs": [{"k": "MinimumTrials", "n": n}],
+                        "b": {"k": "cross", "design": [0], "crossing": [0], "rcc": True, "cs": []}}})
+    # Pin at every index, crossed and uncrossed, also under Repeat
+    for idx in range(-5, 5):
+        for fid in (0, 1):
+            out.append({"factors": [c, t], "block": {"k": "cross", "design": [0, 1], "crossing": [0], "rcc": True,
+                        "cs": [{"k": "MinimumTrials", "n": 4}, {"k": "Pin", "idx": idx, "f": fid, "l": 1}]}})
+        out.append({"factors": [c, t], "block": {"k": "repeat", "cs": [{"k": "MinimumTrials", "n": 4}],
+                    "b": {"k": "cross", "design": [0, 1], "crossing": [0], "rcc": True,
+                          "cs": [{"k": "Pin", "idx": idx, "f": 1, "l": 0}]}}})
+    # MultiCrossBlock: crossings with different preambles (a transition factor in one crossing), all modes/alignments
+    m3 = _sf(2, ["p", "q", "s"])
+    tr = _transition(3, 0, 2)
+    for mode in ("weight", "repeat"):
+        for align in ("parallel start", "post preamble"):
+            for crossings in ([[0, 3], [1]], [[1], [0, 3]], [[0, 3], [1, 2]] if big else [[1, 2], [0, 3]]):
+                des = [0, 1, 2, 3] if any(2 in cr for cr in crossings) else [0, 1, 3]
+                out.append({"factors": [c, t, m3, tr], "block": {"k": "multicross", "design": des, "crossings": crossings,
+                            "cs": [], "rcc": True, "mode": mode, "align": align}})
+    # block-scoped vs combinator-scoped run-length constraints under Repeat; Nest
+    for k in (1, 2):
+        inner = {"k": "cross", "design": [0, 1], "crossing": [0], "rcc": True, "cs": [{"k": "AtMostKInARow", "n": k, "f": 1, "l": 0}]}
+        out.append({"factors": [c, t], "block": {"k": "repeat", "b": inner, "cs": [{"k": "MinimumTrials", "n": 6}]}})
+        inner2 = {"k": "cross", "design": [0, 1], "crossing": [0], "rcc": True, "cs": []}
+        out.append({"factors": [c, t], "block": {"k": "repeat", "b": inner2,
+                    "cs": [{"k": "MinimumTrials", "n": 6}, {"k": "AtMostKInARow", "n": k, "f": 1, "l": 0}]}})
+    o, i1, i2 = _sf(0, ["o1", "o2"]), _sf(10, ["i1", "i2"]), _sf(11, ["u", "v"])
+    for ics in ([], [{"k": "AtMostKInARow", "n": 1, "f": 11, "l": 0}], [{"k": "Pin", "idx": 0, "f": 11, "l": 1}]):
+        for ocs in ([], [{"k": "Pin", "idx": -1, "f": 0, "l": 0}]):
+            out.append({"factors": [o, i1, i2], "block": {"k": "nest", "cs": [], "align": None,
+                        "outer": {"k": "cross", "design": [0], "crossing": [0], "rcc": True, "cs": ocs},
+                        "inner": {"k": "cross", "design": [10, 11], "crossing": [10], "rcc": True, "cs": ics}}})
+    return out
+
+
 # ------------------------------------------------------------ known regions
 
 def classify_region(desc):
